@@ -23,7 +23,12 @@ def regen(ctx):
     estimate, PORT_BUFFER_SIZE and the reservation calls of the coders, cut out of /repo's current uri.c (gen/uri_gen.py);
     aws_isalnum comes from the generated AwsVerif.Gen.ByteBufFns (gen/bytebuf_fns.py, shared with C01)"""
     from lib import core
-    from gen import uri_gen, bytebuf_fns, cfun
+    from gen import uri_gen, bytebuf_fns, bytebuf_tables, cfun
+    try:
+        tables = bytebuf_tables.generate(cbuild.REPO)
+    except (bytebuf_tables.TableError, OSError) as e:
+        raise core.GenError(str(e))
+    core.write_if_changed(os.path.join(core.LEAN, "AwsVerif", "Gen", "ByteBufTables.lean"), tables)
     try:
         fns, _ = bytebuf_fns.generate(cbuild.REPO, cbuild.config_include())
         txt, _ = uri_gen.generate(cbuild.REPO, cbuild.config_include())
@@ -194,6 +199,26 @@ def rand_comp(rng):
     return Comp(sc, ui, host, v6, port, path, q)
 
 
+def long_comps(rng, n):
+    """texts around and beyond the sizes where copy loops change gear (32, 64, 128, 256, 1024 bytes)"""
+    plain = b"abcXYZ019-_.~!$'()*+,;=%"
+    out = []
+    for k in range(n):
+        target = rng.choice([31, 32, 33, 63, 64, 65, 66, 127, 128, 129, 255, 256, 257, 1023, 1025]) if k % 2 else rng.randint(60, 1500)
+        sc = rng.choice([None, b"https"])
+        ui = rng.choice([None, b"user:" + rbytes(rng, rng.randint(0, 40), plain)])
+        host, v6 = rng.choice([(rbytes(rng, rng.randint(1, 60), plain), False), (b"fe80::" + rbytes(rng, rng.randint(0, 30), b"0123456789abcdef:"), True)])
+        port = rng.choice([None, 443, U32])
+        c = Comp(sc, ui, host, v6, port, b"", None)
+        rest = max(0, target - len(c.text()))
+        pl = rng.randint(0, rest)
+        c.path = b"/" + rbytes(rng, pl, plain + b":/@") if pl or rng.random() < 0.5 else b""
+        ql = max(0, target - len(c.text()) - 1)
+        c.query = rbytes(rng, ql, plain + b"&&==:/?") if ql or rng.random() < 0.5 else None
+        out.append(c)
+    return out
+
+
 def parse_op(c):
     return f"parse {hx(c.text())} {c.annot()}"
 
@@ -219,6 +244,7 @@ def gen_comp_cases(rng, tier):
     comps += [Comp(rng.choice(SCHEMES), rng.choice(USERINFOS), *rng.choice(HOSTS), rng.choice(PORTS), rng.choice(PATHS), rng.choice(QUERIES))
               for _ in range(1000 if tier == "quick" else 20000)]
     comps += [rand_comp(rng) for _ in range(5000 if tier == "quick" else 200000)]
+    comps += long_comps(rng, 150 if tier == "quick" else 3000)
     cases = []
     for i in range(0, len(comps), 8):
         ops = [parse_op(c) for c in comps[i:i + 8]]
@@ -304,6 +330,13 @@ def gen_build_cases(rng, tier):
         else:
             qd = dict(q=rbytes(rng, rng.randint(0, 3), plain), params=[(b"k", b"v")] * rng.randint(0, 2))
         ops.append(build_op(sc, h, po, pa, **qd))
+    for c in long_comps(rng, 60 if tier == "quick" else 1500):
+        if c.userinfo is None:
+            h = (b"[" + c.host + b"]") if c.v6 else c.host
+            if rng.random() < 0.5 or not c.query or c.query.count(b"&") > 50:
+                ops.append(build_op(c.scheme or b"", h, c.port or 0, c.path, q=c.query))
+            else:
+                ops.append(build_op(c.scheme or b"", h, c.port or 0, c.path, params=[tuple(seg.partition(b"=")[::2]) for seg in c.query.split(b"&")]))
     return [Case(ops[i:i + 8], {"stream": "build"}) for i in range(0, len(ops), 8)]
 
 
@@ -354,6 +387,8 @@ def gen_query_cases(rng, tier):
         qs.append(rbytes(rng, rng.randint(0, 24), b"abc=&&%/?:"))
     for _ in range(200 if tier == "quick" else 5000):
         qs.append(rbytes(rng, rng.randint(0, 12)))
+    for _ in range(60 if tier == "quick" else 1500):
+        qs.append(rbytes(rng, rng.choice([63, 64, 65, 127, 129, 255, 257, rng.randint(30, 1200)]), b"abcdefgh=&&%/?:"))
     cases = [Case(["q_iter null", "q_list null"], {"stream": "query"})]
     for i in range(0, len(qs), 4):
         ops = []
